@@ -628,6 +628,38 @@ pub fn replay_c09(case: &Value) -> i32 {
         cov.states = 1;
         return finish(&rep, Tier::Quick, cov, started);
     }
+    if case["kind"] == "interrupt_ponder_continuation" {
+        let pos_line2 = case["continuation"].as_str().unwrap_or(&pos_line).to_string();
+        let go = case["go"].as_str().unwrap_or("go ponder infinite").to_string();
+        // the legal replies in the continued position, from the reference
+        let legal2: Vec<String> = match pos_of_position_line(&pos_line2) {
+            Some(p) => p.legal().iter().map(|m| m.uci()).collect(),
+            None => Vec::new(),
+        };
+        let (_, fresh2) = dry_run(&pos_line2, "go depth 1");
+        let mut s = Session::new(false);
+        s.line(&pos_line);
+        let first = run_go(&mut s, "go depth 3", Plan::virtual_rate(0), &none);
+        s.line(&pos_line2);
+        let out = run_go(&mut s, &go, Plan { poll: Some((500, 48_000)), clock: Clock::Rate { ns_per_node: 0, jumps: vec![] }, gates: vec![1] }, &|kk| if kk == 1 { vec![GateAction::Stop] } else { vec![] });
+        let again = run_go(&mut s, "go depth 1", Plan::virtual_rate(0), &none);
+        s.quit();
+        println!("go depth 3 -> {:?} pv {:?}; {} on the continuation, stopped at the first poll -> {:?}; go depth 1 without position -> {:?} {:?}; fresh engine on the continuation: {:?} {:?}", first.best, first.pv, go, out.best, again.best, again.score, fresh2.best, fresh2.score);
+        let case2 = json!({"kind": "interrupt_ponder_continuation", "position": pos_line, "depth": depth, "continuation": pos_line2, "go": go, "poll_index": 1});
+        if out.problem.is_some() || out.n_best != 1 {
+            rep.report("interrupted_search_gives_no_single_answer:ponder_continuation".to_string(), case2.clone());
+        } else if out.obs.before_fen.is_some() && out.obs.before_fen != out.obs.after_fen {
+            rep.report("position_altered_by_interrupted_search:ponder_continuation".to_string(), case2.clone());
+        } else if !matches!(&again.best, Some(b) if legal2.contains(b)) {
+            rep.report("go_after_interruption_plays_illegal_or_null_move:ponder_continuation".to_string(), case2.clone());
+        } else if again.score != fresh2.score {
+            rep.report("go_after_interruption_scores_differently_from_fresh_engine:ponder_continuation".to_string(), case2.clone());
+        }
+        println!("replay: {} violating case(s) reproduced", rep.violation_count());
+        let mut cov = Coverage::new();
+        cov.states = 1;
+        return finish(&rep, Tier::Quick, cov, started);
+    }
     if case["kind"] == "interrupt_after_stray" {
         let other = "position fen 4k3/8/8/8/8/8/4P3/4K3 w - - 0 1";
         let stray: Vec<GateAction> = match case["stray_index"].as_u64().unwrap_or(0) {
